@@ -102,7 +102,7 @@ func rulesC04(w *World, o *Out) {
 		nRet++
 		rel := nm.RelOf(v)
 		op, ratio, ok2 := rel.Canon("sum", "total")
-		good := ok2 && op == token.GEQ && ratio.Cmp(big.NewRat(2, 3)) == 0
+		good := ok2 && op == token.GEQ && ratio.Cmp(big.NewRat(2, 3)) == 0 && rel.FloorExact()
 		d := "normal form: "
 		if ok2 {
 			d += "sum " + op.String() + " " + ratio.RatString() + "·total"
